@@ -11,12 +11,12 @@ T = "memref<16xi32>"
 ID = "affine_map<(d0) -> (d0)>"
 
 
-def tlc_sequences(pid, nl, maxnodes, maxdepth, withif):
+def tlc_sequences(pid, nl, maxnodes, maxdepth, withif, nf=1):
     d = os.path.join(WORK, pid)
     os.makedirs(d, exist_ok=True)
     cfg = os.path.join(SPEC, f".SeqGen_{pid}.cfg")
     with open(cfg, "w") as f:
-        f.write(f"SPECIFICATION Spec\nCONSTANTS\n  NL = {nl}\n  MaxNodes = {maxnodes}\n  MaxDepth = {maxdepth}\n  WithIf = {1 if withif else 0}\n"
+        f.write(f"SPECIFICATION Spec\nCONSTANTS\n  NL = {nl}\n  NF = {nf}\n  MaxNodes = {maxnodes}\n  MaxDepth = {maxdepth}\n  WithIf = {1 if withif else 0}\n"
                 "INVARIANT Emit\nCHECK_DEADLOCK FALSE\n")
     try:
         r = run_tlc("SeqGen", os.path.basename(cfg), workers=4, timeout=900)
@@ -62,7 +62,7 @@ def render_ops(tokens, local_loop_buffers):
                 lines.append(f'{p}"test.op"({nm[leaf[1]]}) {{tag = {tag} : i32}} : ({T}) -> ()')
             else:
                 lines.append(f'{p}"snax.cluster_sync_op"() : () -> ()')
-        elif t == "F":
+        elif t.startswith("F"):
             nloop += 1
             loc = names
             if local_loop_buffers and not any(s[0] == "F" for s in stack):
